@@ -27,7 +27,10 @@ SING_F64 = mpf(10) ** -6
 _PI = mpmath.pi
 SQRT_LIKE = {"tau": (0,), "abs": (0,), "Mt": (0,), "Et": (0,), "rho": (0,), "mag": (0,), "deltaR": (0,),
              "deltaRapidityPhi": (0,), "deltaangle": (0, _PI), "theta": (0, _PI), "beta": (1, -1),
-             "np_sqrt": (0,), "np_cbrt": (0,)}
+             "np_sqrt": (0,), "np_cbrt": (0,), "np_power": (0,)}
+# numpy.sqrt / cbrt / power(v, e) are norm2 ** (e / 2): on the branch point norm = 0 a rounding-sized norm2 (1e-60 or
+# 1e-16 scale^2 through non-Cartesian storage) comes out as its 4th / 6th root
+ROOT_OF_NORM2 = {"np_sqrt", "np_cbrt", "np_power"}
 
 
 # --------------------------------------------------------------------------- params
@@ -145,7 +148,7 @@ BINARY = {"equal", "not_equal", "isclose", "add", "subtract", "cross", "dot", "d
           "deltaRapidityPhi", "deltaRapidityPhi2", "boost_p4", "boost_beta3", "boostCM_of_p4",
           "boostCM_of_beta3", "boost", "boostCM_of"}
 ANGLE_VALUED = {"phi", "deltaphi"}
-NAN_AT_BRANCH = {"Mt", "np_sqrt", "np_cbrt"}
+NAN_AT_BRANCH = {"Mt", "np_sqrt", "np_cbrt", "np_power"}
 # operations whose value on the 2-D/3-D part does not involve the stored higher
 # coordinates: running them in every longitudinal/temporal storage is redundant, so the
 # quick tier samples signatures for them
@@ -309,10 +312,65 @@ def sig_plan(case, tier, mode):
     return combos
 
 
+def run_rawtau(case, classes, number, tier, mode, tol):
+    """Cases whose operand is given by its *stored* proper time (a = x, y, z, tau with any tau): the spatial part
+    is stored in each of the six spatial systems, tau is stored as given."""
+    from vector.backends import object as vobj
+
+    op = case["op"][len("rawtau_"):]
+    a = vec_of(case["a"])
+    kind, exp, tie = expected_of(case)
+    records, hits, compared = [], [], 0
+    scale = (1 + maxabs(a)) ** 2
+    flavor = "momentum" if _h(case, "fl") % 3 == 0 else "generic"
+    for sig3 in signatures(3):
+        if not representable(a[:3], sig3):
+            continue
+        sa = tuple(sig3) + ("tau",)
+        st = [number(c) for c in coords.store(a[:3], sig3)] + [number(a[3])]
+        az = vobj.AzimuthalObjectXY(st[0], st[1]) if sa[0] == "xy" else vobj.AzimuthalObjectRhoPhi(st[0], st[1])
+        lon = {"z": vobj.LongitudinalObjectZ, "theta": vobj.LongitudinalObjectTheta, "eta": vobj.LongitudinalObjectEta}[sa[1]](st[2])
+        A = classes[(flavor, 4)](azimuthal=az, longitudinal=lon, temporal=vobj.TemporalObjectTau(st[3]))
+        try:
+            if op.startswith("is_"):
+                raw = getattr(A, op)(number(rat(case["p"][0])))
+            else:
+                raw = getattr(A, op)
+        except Exception as ex:
+            records.append({"kind": "error", "sig": [sa, None], "error": f"{type(ex).__name__}: {ex}"[:300]})
+            continue
+        hits.append((case["op"], sa, None))
+        blame = "C02" if sig3 == CANON[3] else "C01"
+        if op.startswith("is_"):
+            if exp != "either":
+                compared += 1
+                if bool(raw) != (exp == "T"):
+                    records.append({"kind": blame, "sig": [sa, None], "got": bool(raw), "want": exp == "T"})
+            continue
+        val = to_mpf(raw)
+        if mpmath.isnan(val) or (op in ("t", "t2") and val < 0):
+            records.append({"kind": "range", "sig": [sa, None], "got": mpmath.nstr(val, 30),
+                            "want": "t derived from tau is non-negative and never NaN"})
+            continue
+        compared += 1
+        e = tol * scale
+        if op == "t" and _finite(exp) and abs(exp) <= mpf(10) ** -15:
+            e = (SING_MP if tol == MP_TOL else SING_F64) * scale     # sqrt of a rounding-sized radicand at tau = -mag
+        if op == "tau":
+            if val != a[3] and not (mode == "f64" and float(val) == float(a[3])):
+                records.append({"kind": blame, "sig": [sa, None], "got": mpmath.nstr(val, 30), "want": mpmath.nstr(a[3], 30),
+                                "note": "the stored coordinate is returned as stored"})
+        elif not close_num(val, exp, e):
+            records.append({"kind": blame, "sig": [sa, None], "got": mpmath.nstr(val, 30), "want": mpmath.nstr(exp, 30)})
+    return records, hits, compared
+
+
 def run_case(case, classes, number, tier, mode, tol):
     """Replay one case in every planned signature.  Returns (records, hits) where each
     record describes a disagreement: dict(kind='C01'|'C02'|'range'|'error', ...)."""
     op = case["op"]
+    if op.startswith("rawtau_"):
+        return run_rawtau(case, classes, number, tier, mode, tol)
     va = vec_of(case["a"])
     vb = vec_of(case["b"]) if case["b"] else None
     kind, exp, tie = expected_of(case)
@@ -384,6 +442,10 @@ def run_case(case, classes, number, tier, mode, tol):
             e = eps
             if op in SQRT_LIKE and _finite(exp) and any(abs(exp - s0) <= mpf(10) ** -15 * scale for s0 in SQRT_LIKE[op]):
                 e = sing_eps
+            if op in ROOT_OF_NORM2 and e == sing_eps and not is_canon:
+                e = sing_eps = (mpf(10) ** -9 if tol == MP_TOL else mpf(10) ** -2) * scale
+            if op == "np_cbrt" and tol == MP_TOL:
+                e = max(e, mpf(10) ** -14 * scale)     # the library's exponent is the double literal 0.16666666666666666
             if op in NAN_AT_BRANCH and e == sing_eps and not is_canon and mpmath.isnan(val):
                 continue        # sqrt of a rounding-negative radicand exactly at its branch point
             if mpmath.isinf(exp) and not is_canon and _finite(val) and abs(val) > (mpf(10) ** 18 if tol == MP_TOL else mpf(10) ** 5) * scale:
@@ -452,6 +514,8 @@ def run_case(case, classes, number, tier, mode, tol):
 def strata(case):
     """Coarse stratum tags of the operands (for keying known findings)."""
     tags = []
+    if case["op"].startswith("rawtau_"):
+        return ["a:rawtau"]
     for nm, v in (("a", case["a"]), ("b", case["b"])):
         if not v:
             continue
